@@ -19,11 +19,11 @@ var ctx *engine.Ctx
 type sig struct{ n, d uint8 } // 0/0 = inherit
 
 type ev struct {
-	bar, track  int
-	pos, dur    int // in 32nds
-	note        bool
-	key         uint8
-	ch0         bool // use channel 0 whatever the track (the same voice doubled on two tracks)
+	bar, track int
+	pos, dur   int // in 32nds
+	note       bool
+	key        uint8
+	ch0        bool // use channel 0 whatever the track (the same voice doubled on two tracks)
 }
 
 type song struct {
